@@ -58,6 +58,14 @@ CHECKS.update({
             "the datasets captured around every confidence step; metamorphic comparison with the pipeline without the steps",
             "four confidence classes on synthetic volumes (min/max, NaN, ties), pipelines with 0-4 steps and suffixes", "3 C12"),
 })
+CHECKS.update({
+    "C16": ("reference-model monitor: independent full read of the same files (rasterio + numpy) compared with the dataset "
+            "returned by create_dataset_from_inputs; ROI = crop of the full read; exhaustive ROI x margins sweep of get_window",
+            "generated rasters (dtypes, bands, nodata kinds, mask values, grids, classif/segm) + 294 030 ROI/margin combinations on a 5x4 raster", "3 C16"),
+    "C17": ("executable model (predicate well_formed written from the statement) compared in both directions with the "
+            "exception/return outcome of check_datasets and check_input_section; callback spy for 'refused before matching'",
+            "every single fault of the catalogue on several bases, sampled pairs", "3 C17"),
+})
 NOTES = {}
 
 def main():
